@@ -1,15 +1,16 @@
-package cblas128
+// Code generated from ../cblas128/zz_verif_c01_w.go by /verif/harness/blas/gonum/gen_w.py; DO NOT EDIT.
+
+package cblas64
 
 import (
 	"gonum.org/v1/gonum/blas"
 	"gonum.org/v1/gonum/blas/gonum"
 )
 
-// C01, wrapper package cblas128: every wrapper function passes exactly the right flags, dimensions,
+// C01, wrapper package cblas64: every wrapper function passes exactly the right flags, dimensions,
 // strides and increments of its struct arguments to the implementation: the wrapped call and the
-// direct call gonum.Implementation{}.Zxxx(...) on a copy of the same (symbolic) data leave every
+// direct call gonum.Implementation{}.Cxxx(...) on a copy of the same (symbolic) data leave every
 // backing cell of every operand bit-identical and return identical results.
-// The complex64 twin (package cblas64) is generated by /verif/harness/blas/gonum/gen_w.py.
 
 func verifC01wAbs(x int) int {
 	if x < 0 {
@@ -81,29 +82,29 @@ func verifC01wSide(name string) blas.Side {
 }
 
 // two copies of the same symbolic data: w is handed to the wrapper, d to the direct call
-func verifC01wPair(name string, n int) (w, d []complex128) {
-	w = verifComplexes(name, n)
-	d = append([]complex128(nil), w...)
+func verifC01wPair(name string, n int) (w, d []complex64) {
+	w = verifComplex64s(name, n)
+	d = append([]complex64(nil), w...)
 	return w, d
 }
 
-func verifC01wSameF(a, b float64) bool { return verifSame(a, b) }
+func verifC01wSameF(a, b float32) bool { return verifSame(float64(a), float64(b)) }
 
-func verifC01wSameC(a, b complex128) bool {
+func verifC01wSameC(a, b complex64) bool {
 	return verifAnd(verifC01wSameF(real(a), real(b)), verifC01wSameF(imag(a), imag(b)))
 }
 
-func verifC01wSameAll(w, d []complex128, msg string) {
+func verifC01wSameAll(w, d []complex64, msg string) {
 	for i := range w {
 		verifAssert(verifC01wSameC(w[i], d[i]), msg)
 	}
 }
 
-func verifC01wCmplx(name string) complex128 {
-	return complex(verifFloat(name+".re"), verifFloat(name+".im"))
+func verifC01wCmplx(name string) complex64 {
+	return complex(verifFloat32(name+".re"), verifFloat32(name+".im"))
 }
 
-func verifC01wNonZero(z complex128) {
+func verifC01wNonZero(z complex64) {
 	verifAssume(verifOr(real(z) != 0, imag(z) != 0))
 }
 
@@ -135,8 +136,8 @@ func verifC01wBandLen(rows, width, ld, slack int) int {
 	return ld*(rows-1) + width + slack
 }
 
-// VerifC01_Cblas128Vector: the Level 1 wrappers over Vector{N, Data, Inc}.
-func VerifC01_Cblas128Vector() {
+// VerifC01_Cblas64Vector: the Level 1 wrappers over Vector{N, Data, Inc}.
+func VerifC01_Cblas64Vector() {
 	impl := gonum.Implementation{}
 	r := verifChoose("routine", 0, 9)
 	n := verifChoose("n", 0, verifParam("wn", 2)+1)
@@ -153,40 +154,40 @@ func VerifC01_Cblas128Vector() {
 	alpha := verifC01wCmplx("alpha")
 	switch r {
 	case 0:
-		verifAssert(verifC01wSameC(Dotu(x, y), impl.Zdotu(n, xd, incX, yd, incY)), "Dotu == Zdotu")
+		verifAssert(verifC01wSameC(Dotu(x, y), impl.Cdotu(n, xd, incX, yd, incY)), "Dotu == Cdotu")
 	case 1:
-		verifAssert(verifC01wSameC(Dotc(x, y), impl.Zdotc(n, xd, incX, yd, incY)), "Dotc == Zdotc")
+		verifAssert(verifC01wSameC(Dotc(x, y), impl.Cdotc(n, xd, incX, yd, incY)), "Dotc == Cdotc")
 	case 2:
 		Swap(x, y)
-		impl.Zswap(n, xd, incX, yd, incY)
+		impl.Cswap(n, xd, incX, yd, incY)
 	case 3:
 		Copy(x, y)
-		impl.Zcopy(n, xd, incX, yd, incY)
+		impl.Ccopy(n, xd, incX, yd, incY)
 	case 4:
 		Axpy(alpha, x, y)
-		impl.Zaxpy(n, alpha, xd, incX, yd, incY)
+		impl.Caxpy(n, alpha, xd, incX, yd, incY)
 	case 5:
-		verifAssert(verifC01wSameF(Nrm2(x), impl.Dznrm2(n, xd, incX)), "Nrm2 == Dznrm2")
+		verifAssert(verifC01wSameF(Nrm2(x), impl.Scnrm2(n, xd, incX)), "Nrm2 == Scnrm2")
 	case 6:
-		verifAssert(verifC01wSameF(Asum(x), impl.Dzasum(n, xd, incX)), "Asum == Dzasum")
+		verifAssert(verifC01wSameF(Asum(x), impl.Scasum(n, xd, incX)), "Asum == Scasum")
 	case 7:
-		verifAssert(Iamax(x) == impl.Izamax(n, xd, incX), "Iamax == Izamax")
+		verifAssert(Iamax(x) == impl.Icamax(n, xd, incX), "Iamax == Icamax")
 	case 8:
 		Scal(alpha, x)
-		impl.Zscal(n, alpha, xd, incX)
+		impl.Cscal(n, alpha, xd, incX)
 	default:
 		Dscal(real(alpha), x)
-		impl.Zdscal(n, real(alpha), xd, incX)
+		impl.Csscal(n, real(alpha), xd, incX)
 	}
 	verifC01wSameAll(xw, xd, "Level 1 wrapper: x as after the direct call")
 	verifC01wSameAll(yw, yd, "Level 1 wrapper: y as after the direct call")
 	verifReach("end")
 }
 
-// VerifC01_Cblas128VectorPanics: documented argument checks of the Level 1 wrappers: a negative
+// VerifC01_Cblas64VectorPanics: documented argument checks of the Level 1 wrappers: a negative
 // increment (Nrm2, Asum, Iamax, Scal, Dscal) and x.N != y.N (Dotu, Dotc, Swap, Copy, Axpy) panic
 // before anything is written.
-func VerifC01_Cblas128VectorPanics() {
+func VerifC01_Cblas64VectorPanics() {
 	r := verifChoose("routine", 0, 9)
 	n := verifChoose("n", 0, 2)
 	incX, incY := 1, 1
@@ -235,8 +236,8 @@ func VerifC01_Cblas128VectorPanics() {
 	verifReach("end")
 }
 
-// VerifC01_Cblas128General: Gemv, Geru, Gerc, Gemm over General{Rows, Cols, Data, Stride}.
-func VerifC01_Cblas128General() {
+// VerifC01_Cblas64General: Gemv, Geru, Gerc, Gemm over General{Rows, Cols, Data, Stride}.
+func VerifC01_Cblas64General() {
 	impl := gonum.Implementation{}
 	maxN := verifParam("wn", 2)
 	r := verifChoose("routine", 0, 3)
@@ -264,13 +265,13 @@ func VerifC01_Cblas128General() {
 		switch r {
 		case 0:
 			Gemv(t, alpha, a, x, beta, y)
-			impl.Zgemv(t, m, n, alpha, ad, lda, xd, incX, beta, yd, incY)
+			impl.Cgemv(t, m, n, alpha, ad, lda, xd, incX, beta, yd, incY)
 		case 1:
 			Geru(alpha, x, y, a)
-			impl.Zgeru(m, n, alpha, xd, incX, yd, incY, ad, lda)
+			impl.Cgeru(m, n, alpha, xd, incX, yd, incY, ad, lda)
 		default:
 			Gerc(alpha, x, y, a)
-			impl.Zgerc(m, n, alpha, xd, incX, yd, incY, ad, lda)
+			impl.Cgerc(m, n, alpha, xd, incX, yd, incY, ad, lda)
 		}
 		verifC01wSameAll(aw, ad, "Gemv/Geru/Gerc: A as after the direct call")
 		verifC01wSameAll(xw, xd, "Gemv/Geru/Gerc: x as after the direct call")
@@ -292,7 +293,7 @@ func VerifC01_Cblas128General() {
 		bw, bd := verifC01wPair("b", verifC01wMlen(rb, cb, ldb, padB))
 		cw, cd := verifC01wPair("c", verifC01wMlen(m, n, ldc, padC))
 		Gemm(tA, tB, alpha, General{Rows: ra, Cols: ca, Data: aw, Stride: lda}, General{Rows: rb, Cols: cb, Data: bw, Stride: ldb}, beta, General{Rows: m, Cols: n, Data: cw, Stride: ldc})
-		impl.Zgemm(tA, tB, m, n, k, alpha, ad, lda, bd, ldb, beta, cd, ldc)
+		impl.Cgemm(tA, tB, m, n, k, alpha, ad, lda, bd, ldb, beta, cd, ldc)
 		verifC01wSameAll(aw, ad, "Gemm: A as after the direct call")
 		verifC01wSameAll(bw, bd, "Gemm: B as after the direct call")
 		verifC01wSameAll(cw, cd, "Gemm: C as after the direct call")
@@ -300,8 +301,8 @@ func VerifC01_Cblas128General() {
 	verifReach("end")
 }
 
-// VerifC01_Cblas128Band: Gbmv over Band{Rows, Cols, KL, KU, Data, Stride}.
-func VerifC01_Cblas128Band() {
+// VerifC01_Cblas64Band: Gbmv over Band{Rows, Cols, KL, KU, Data, Stride}.
+func VerifC01_Cblas64Band() {
 	impl := gonum.Implementation{}
 	maxN := verifParam("wn", 2)
 	t := verifC01wTrans("trans")
@@ -329,16 +330,16 @@ func VerifC01_Cblas128Band() {
 	yw, yd := verifC01wPair("y", verifC01wVlen(lenY, incY, pad))
 	alpha, beta := verifC01wCmplx("alpha"), verifC01wCmplx("beta")
 	Gbmv(t, alpha, Band{Rows: m, Cols: n, KL: kL, KU: kU, Data: aw, Stride: lda}, Vector{N: lenX, Data: xw, Inc: incX}, beta, Vector{N: lenY, Data: yw, Inc: incY})
-	impl.Zgbmv(t, m, n, kL, kU, alpha, ad, lda, xd, incX, beta, yd, incY)
+	impl.Cgbmv(t, m, n, kL, kU, alpha, ad, lda, xd, incX, beta, yd, incY)
 	verifC01wSameAll(aw, ad, "Gbmv: A as after the direct call")
 	verifC01wSameAll(xw, xd, "Gbmv: x as after the direct call")
 	verifC01wSameAll(yw, yd, "Gbmv: y as after the direct call")
 	verifReach("end")
 }
 
-// VerifC01_Cblas128Triangular: Trmv, Trsv (routine 0, 1), Tbmv, Tbsv (2, 3), Tpmv, Tpsv (4, 5) over
+// VerifC01_Cblas64Triangular: Trmv, Trsv (routine 0, 1), Tbmv, Tbsv (2, 3), Tpmv, Tpsv (4, 5) over
 // Triangular / TriangularBand / TriangularPacked, and Trmm, Trsm (6, 7) over Triangular + General.
-func VerifC01_Cblas128Triangular() {
+func VerifC01_Cblas64Triangular() {
 	impl := gonum.Implementation{}
 	maxN := verifParam("wn", 2)
 	r := verifChoose("routine", 0, 7)
@@ -369,10 +370,10 @@ func VerifC01_Cblas128Triangular() {
 		b := General{Rows: m, Cols: n, Data: bw, Stride: ldb}
 		if solve {
 			Trsm(s, t, alpha, a, b)
-			impl.Ztrsm(s, ul, t, dg, m, n, alpha, ad, lda, bd, ldb)
+			impl.Ctrsm(s, ul, t, dg, m, n, alpha, ad, lda, bd, ldb)
 		} else {
 			Trmm(s, t, alpha, a, b)
-			impl.Ztrmm(s, ul, t, dg, m, n, alpha, ad, lda, bd, ldb)
+			impl.Ctrmm(s, ul, t, dg, m, n, alpha, ad, lda, bd, ldb)
 		}
 		verifC01wSameAll(aw, ad, "Trmm/Trsm: A as after the direct call")
 		verifC01wSameAll(bw, bd, "Trmm/Trsm: B as after the direct call")
@@ -382,7 +383,7 @@ func VerifC01_Cblas128Triangular() {
 	incX := verifC01wInc("incX")
 	xw, xd := verifC01wPair("x", verifC01wVlen(n, incX, pad))
 	x := Vector{N: n, Data: xw, Inc: incX}
-	var aw, ad []complex128
+	var aw, ad []complex64
 	switch r / 2 {
 	case 0:
 		lda := verifC01wLd(n, pad)
@@ -395,10 +396,10 @@ func VerifC01_Cblas128Triangular() {
 		a := Triangular{Uplo: ul, Diag: dg, N: n, Data: aw, Stride: lda}
 		if solve {
 			Trsv(t, a, x)
-			impl.Ztrsv(ul, t, dg, n, ad, lda, xd, incX)
+			impl.Ctrsv(ul, t, dg, n, ad, lda, xd, incX)
 		} else {
 			Trmv(t, a, x)
-			impl.Ztrmv(ul, t, dg, n, ad, lda, xd, incX)
+			impl.Ctrmv(ul, t, dg, n, ad, lda, xd, incX)
 		}
 	case 1:
 		k := verifChoose("k", 0, 1)
@@ -416,10 +417,10 @@ func VerifC01_Cblas128Triangular() {
 		a := TriangularBand{Uplo: ul, Diag: dg, N: n, K: k, Data: aw, Stride: lda}
 		if solve {
 			Tbsv(t, a, x)
-			impl.Ztbsv(ul, t, dg, n, k, ad, lda, xd, incX)
+			impl.Ctbsv(ul, t, dg, n, k, ad, lda, xd, incX)
 		} else {
 			Tbmv(t, a, x)
-			impl.Ztbmv(ul, t, dg, n, k, ad, lda, xd, incX)
+			impl.Ctbmv(ul, t, dg, n, k, ad, lda, xd, incX)
 		}
 	default:
 		aw, ad = verifC01wPair("a", n*(n+1)/2+pad)
@@ -438,10 +439,10 @@ func VerifC01_Cblas128Triangular() {
 		a := TriangularPacked{Uplo: ul, Diag: dg, N: n, Data: aw}
 		if solve {
 			Tpsv(t, a, x)
-			impl.Ztpsv(ul, t, dg, n, ad, xd, incX)
+			impl.Ctpsv(ul, t, dg, n, ad, xd, incX)
 		} else {
 			Tpmv(t, a, x)
-			impl.Ztpmv(ul, t, dg, n, ad, xd, incX)
+			impl.Ctpmv(ul, t, dg, n, ad, xd, incX)
 		}
 	}
 	verifC01wSameAll(aw, ad, "triangular wrapper: A as after the direct call")
@@ -449,9 +450,9 @@ func VerifC01_Cblas128Triangular() {
 	verifReach("end")
 }
 
-// VerifC01_Cblas128Hermitian: Hemv, Her, Her2 (routine 0..2) over Hermitian, Hbmv (3) over HermitianBand,
+// VerifC01_Cblas64Hermitian: Hemv, Her, Her2 (routine 0..2) over Hermitian, Hbmv (3) over HermitianBand,
 // Hpmv, Hpr, Hpr2 (4..6) over HermitianPacked.
-func VerifC01_Cblas128Hermitian() {
+func VerifC01_Cblas64Hermitian() {
 	impl := gonum.Implementation{}
 	r := verifChoose("routine", 0, 6)
 	ul := verifC01wUplo("uplo")
@@ -462,7 +463,7 @@ func VerifC01_Cblas128Hermitian() {
 	yw, yd := verifC01wPair("y", verifC01wVlen(n, incY, pad))
 	x, y := Vector{N: n, Data: xw, Inc: incX}, Vector{N: n, Data: yw, Inc: incY}
 	alpha, beta := verifC01wCmplx("alpha"), verifC01wCmplx("beta")
-	var aw, ad []complex128
+	var aw, ad []complex64
 	switch {
 	case r <= 2:
 		lda := verifC01wLd(n, pad)
@@ -471,33 +472,33 @@ func VerifC01_Cblas128Hermitian() {
 		switch r {
 		case 0:
 			Hemv(alpha, a, x, beta, y)
-			impl.Zhemv(ul, n, alpha, ad, lda, xd, incX, beta, yd, incY)
+			impl.Chemv(ul, n, alpha, ad, lda, xd, incX, beta, yd, incY)
 		case 1:
 			Her(real(alpha), x, a)
-			impl.Zher(ul, n, real(alpha), xd, incX, ad, lda)
+			impl.Cher(ul, n, real(alpha), xd, incX, ad, lda)
 		default:
 			Her2(alpha, x, y, a)
-			impl.Zher2(ul, n, alpha, xd, incX, yd, incY, ad, lda)
+			impl.Cher2(ul, n, alpha, xd, incX, yd, incY, ad, lda)
 		}
 	case r == 3:
 		k := verifChoose("k", 0, 1)
 		lda := k + 1 + pad
 		aw, ad = verifC01wPair("a", verifC01wBandLen(n, k+1, lda, pad))
 		Hbmv(alpha, HermitianBand{Uplo: ul, N: n, K: k, Data: aw, Stride: lda}, x, beta, y)
-		impl.Zhbmv(ul, n, k, alpha, ad, lda, xd, incX, beta, yd, incY)
+		impl.Chbmv(ul, n, k, alpha, ad, lda, xd, incX, beta, yd, incY)
 	default:
 		aw, ad = verifC01wPair("a", n*(n+1)/2+pad)
 		a := HermitianPacked{Uplo: ul, N: n, Data: aw}
 		switch r {
 		case 4:
 			Hpmv(alpha, a, x, beta, y)
-			impl.Zhpmv(ul, n, alpha, ad, xd, incX, beta, yd, incY)
+			impl.Chpmv(ul, n, alpha, ad, xd, incX, beta, yd, incY)
 		case 5:
 			Hpr(real(alpha), x, a)
-			impl.Zhpr(ul, n, real(alpha), xd, incX, ad)
+			impl.Chpr(ul, n, real(alpha), xd, incX, ad)
 		default:
 			Hpr2(alpha, x, y, a)
-			impl.Zhpr2(ul, n, alpha, xd, incX, yd, incY, ad)
+			impl.Chpr2(ul, n, alpha, xd, incX, yd, incY, ad)
 		}
 	}
 	verifC01wSameAll(aw, ad, "Hermitian wrapper: A as after the direct call")
@@ -506,9 +507,9 @@ func VerifC01_Cblas128Hermitian() {
 	verifReach("end")
 }
 
-// VerifC01_Cblas128Level3: Symm, Syrk, Syr2k (routine 0..2) over Symmetric + General and
+// VerifC01_Cblas64Level3: Symm, Syrk, Syr2k (routine 0..2) over Symmetric + General and
 // Hemm, Herk, Her2k (3..5) over Hermitian + General.
-func VerifC01_Cblas128Level3() {
+func VerifC01_Cblas64Level3() {
 	impl := gonum.Implementation{}
 	maxN := verifParam("wn", 2)
 	r := verifChoose("routine", 0, 5)
@@ -533,10 +534,10 @@ func VerifC01_Cblas128Level3() {
 		c := General{Rows: m, Cols: n, Data: cw, Stride: ldc}
 		if herm {
 			Hemm(s, alpha, Hermitian{Uplo: ul, N: ka, Data: aw, Stride: lda}, b, beta, c)
-			impl.Zhemm(s, ul, m, n, alpha, ad, lda, bd, ldb, beta, cd, ldc)
+			impl.Chemm(s, ul, m, n, alpha, ad, lda, bd, ldb, beta, cd, ldc)
 		} else {
 			Symm(s, alpha, Symmetric{Uplo: ul, N: ka, Data: aw, Stride: lda}, b, beta, c)
-			impl.Zsymm(s, ul, m, n, alpha, ad, lda, bd, ldb, beta, cd, ldc)
+			impl.Csymm(s, ul, m, n, alpha, ad, lda, bd, ldb, beta, cd, ldc)
 		}
 		verifC01wSameAll(aw, ad, "Symm/Hemm: A as after the direct call")
 		verifC01wSameAll(bw, bd, "Symm/Hemm: B as after the direct call")
@@ -565,16 +566,16 @@ func VerifC01_Cblas128Level3() {
 	switch r {
 	case 1:
 		Syrk(t, alpha, a, beta, Symmetric{Uplo: ul, N: n, Data: cw, Stride: ldc})
-		impl.Zsyrk(ul, t, n, k, alpha, ad, lda, beta, cd, ldc)
+		impl.Csyrk(ul, t, n, k, alpha, ad, lda, beta, cd, ldc)
 	case 2:
 		Syr2k(t, alpha, a, b, beta, Symmetric{Uplo: ul, N: n, Data: cw, Stride: ldc})
-		impl.Zsyr2k(ul, t, n, k, alpha, ad, lda, bd, ldb, beta, cd, ldc)
+		impl.Csyr2k(ul, t, n, k, alpha, ad, lda, bd, ldb, beta, cd, ldc)
 	case 4:
 		Herk(t, real(alpha), a, real(beta), Hermitian{Uplo: ul, N: n, Data: cw, Stride: ldc})
-		impl.Zherk(ul, t, n, k, real(alpha), ad, lda, real(beta), cd, ldc)
+		impl.Cherk(ul, t, n, k, real(alpha), ad, lda, real(beta), cd, ldc)
 	default:
 		Her2k(t, alpha, a, b, real(beta), Hermitian{Uplo: ul, N: n, Data: cw, Stride: ldc})
-		impl.Zher2k(ul, t, n, k, alpha, ad, lda, bd, ldb, real(beta), cd, ldc)
+		impl.Cher2k(ul, t, n, k, alpha, ad, lda, bd, ldb, real(beta), cd, ldc)
 	}
 	verifC01wSameAll(aw, ad, "rank-k wrapper: A as after the direct call")
 	verifC01wSameAll(bw, bd, "rank-k wrapper: B as after the direct call")
